@@ -621,6 +621,26 @@ let handle (r : reader) : unit =
       let cells q d l = (match moc_cells_o q w64 d l with Some c -> c | None -> raise (Parse_error "cells-fuel")) in
       let l = next_list r (fun r -> let a = next_ranges r in let b = next_ranges r in (cells Time d1 a, cells Hpx d2 b)) in
       out_s "OK"; out_hex (st_to_json (n_of_int 116) (n_of_int 115) d1 d2 fold l)
+  | "JSONR" ->
+      (* JSONR q w hex -> from_json_aladin on the JSON subset of the model: OUT (outside the subset), the
+         depth and the cells with their ranges() view, or ERR *)
+      let q = next_qty r in
+      let w = next_n r in
+      let s = bytes_of_hex (next r) in
+      (match from_json isort_e q w s with
+       | JROut -> out_s "OUT"
+       | JRRes (AOk (d, es)) -> out_s "OK"; out_n d; out_elems es; out_ranges (ranges_of_elems q w es)
+       | JRRes (AErr _) -> out_s "ERR")
+  | "JSON2R" ->
+      (* JSON2R hex -> cellmoc2d_from_json_aladin for Time x Hpx, 64-bit *)
+      let s = bytes_of_hex (next r) in
+      let w64 = n_of_int 64 in
+      (match st_from_json isort_e Time w64 Hpx w64 (n_of_int 116) (n_of_int 115) s with
+       | J2Out -> out_s "OUT"
+       | J2Err -> out_s "ERR"
+       | J2Ok (d1, d2, l) ->
+           out_s "OK"; out_n d1; out_n d2; out_int (List.length l);
+           List.iter (fun (a, b) -> out_elems a; out_elems b) l)
   | "HIST" -> handle_hist r
   | "MSET" -> handle_mset r
   | "TEXTV" ->
